@@ -432,9 +432,13 @@ func runScript(s script) *result {
 	if s.Event == "slowWrite" {
 		// the first transport write takes 2.4 s (the peer reads slowly); the writers go on writing: whoever finds the queue full
 		// waits; nothing closes the connection, so everything arrives
+		t0 := time.Now()
 		go func() { time.Sleep(2400 * time.Millisecond); close(fc.release) }()
 		startWriters(1)
 		wg.Wait()
+		if d := 2500*time.Millisecond - time.Since(t0); d > 0 {
+			time.Sleep(d) // the observation is taken once the transport has been released and the queue drained
+		}
 		time.Sleep(60 * time.Millisecond)
 	}
 	switch s.Place {
